@@ -203,17 +203,46 @@ def strip_coq_comments(s: str) -> str:
     return "".join(out)
 
 
-def audit_sources(dirs: Iterable[str]) -> list[str]:
-    """Grep the closure for banned constructs (outside comments)."""
+def strip_coq_strings(s: str) -> str:
+    """Blank out the contents of string literals ("" is the escaped quote)."""
+    return re.sub(r'"(?:[^"]|"")*"', '""', s)
+
+
+def closure_files(props_rel: str) -> list[str]:
+    """Project-local transitive dependencies (.v paths relative to coq/) of a file, itself included."""
+    seen: list[str] = []
+    todo = [props_rel]
+    while todo:
+        f = todo.pop()
+        if f in seen or not os.path.exists(os.path.join(COQ, f)):
+            continue
+        seen.append(f)
+        todo += [d[:-1] for d in coq_deps_of(f)]
+    return sorted(seen)
+
+
+def audit_sources(dirs: Iterable[str], extra_files: Iterable[str] = ()) -> list[str]:
+    """Grep the closure for banned constructs (outside comments and string literals).
+
+    Every .v file of the listed directories is audited, except that of coq/gen only the files in
+    `extra_files` (the transitive closure of the Properties file) are: gen/ is shared by all properties."""
     bad = []
+    files: list[tuple[str, str]] = []
     for d in dirs:
         dd = os.path.join(COQ, d)
-        if not os.path.isdir(dd):
+        if not os.path.isdir(dd) or d == "gen":
             continue
-        for f in sorted(os.listdir(dd)):
-            if not f.endswith(".v"):
-                continue
-            src = strip_coq_comments(open(os.path.join(dd, f), encoding="utf-8").read())
+        files += [(d, f) for f in sorted(os.listdir(dd)) if f.endswith(".v")]
+    for rel in extra_files:
+        d, f = os.path.split(rel)
+        if (d, f) not in files:
+            files.append((d, f))
+    for d, f in files:
+        dd = os.path.join(COQ, d)
+        if True:
+            if True:
+                pass
+            src = strip_coq_strings(strip_coq_comments(open(os.path.join(dd, f), encoding="utf-8").read()))
             for m in BANNED.finditer(src):
                 bad.append(f"{d}/{f}: {m.group(0)}")
             # Variable/Hypothesis outside a Section declare axioms
@@ -329,7 +358,7 @@ class Ctx:
                 self.broke("A", props_rel, f"theorem depends on non-whitelisted axiom {a}")
                 okA = False
         tb.append(f"{props_rel}: " + ("closed under the global context (no axioms)" if not axioms else "axioms: " + ", ".join(axioms)))
-        bad = audit_sources(list(closure_dirs))
+        bad = audit_sources(list(closure_dirs), closure_files(props_rel))
         if bad:
             self.broke("A", props_rel, "banned constructs: " + "; ".join(bad[:10]))
             okA = False
